@@ -5,3 +5,4 @@ import MiniconfVerif.Props.C13
 #print axioms MiniconfVerif.C13.transitions
 #print axioms MiniconfVerif.C13.transition_table_matches
 #print axioms MiniconfVerif.C13.source_update_is_model
+#print axioms MiniconfVerif.C13.source_update_composed_is_model
